@@ -38,7 +38,8 @@ NextCts == LET c == g.minct IN
 
 -----------------------------------------------------------------------------
 Shapes == { <<1, 0, 0, 294>>, <<2, 1, 0, 330>>, <<1, 0, 1, 294>>, <<8, 0, 0, 294>>,
-            <<16, 0, 0, 294>>, <<1, 1, 2, 330>> }
+            <<16, 0, 0, 294>>, <<1, 1, 2, 330>>, <<1, 0, 1, 330>>,
+            <<10, 0, 0, 294>> }   \* 2896 wu = 16*181: budgets 181*odd give exact .5 ties of budget*1000/weight
 H0 == 1000
 
 ReqInMain(p) ==
@@ -74,10 +75,13 @@ GNext ==
         /\ \E sh \in {Pick(Shapes, N)} : \E r \in {Pick(GRelays, N)} :
            \E e \in {Pick({r + 47, 2000, 50000}, N)} :            \* the budget rate aimed at
            LET w == Weight(sh[1], sh[2], sh[3], sh[4]) IN
-           \E b \in {FeeFor(e, w) + Pick(0..(w \div 1000 + 2), N)} :
+           \E b \in {IF w = 2896 THEN Pick({181 * 5, 181 * 33, 181 * 801, FeeFor(e, w) + 1}, N)
+                      ELSE FeeFor(e, w) + Pick(0..(w \div 1000 + 2), N)} :
            \E m \in {Pick({e \div 2 + r, 250000}, N)} :
            LET ro == sh[3] * 20000 IN
-           \E ti \in {ro + Pick({b + 100000, FeeFor(e \div 2 + r, w) + 200, b + sh[4] - 1, b \div 2}, N)} :
+           \E ti \in {ro + Pick({b + 100000, FeeFor(e \div 2 + r, w) + 200, b + sh[4] - 1, b \div 2,
+                                  FeeFor(r, w) + sh[4] - 150,          \* change below dust from the start
+                                  FeeFor(r + 60, w) + sh[4] + 5}, N)} : \* ... from the second or third rate on
            \E c0 \in {Pick({0, 1, 2, 3, 5, 1009}, N)} :
            \E so \in {Pick({-1, -1, r, (r + Min(e, m)) \div 2, Min(e, m), Min(e, m) + 77, r - 3}, N)} :
            \E es \in {Pick({-1, r - 1, r + 5, 1000000}, N)} :
